@@ -109,6 +109,17 @@ pub fn alphabet(inst: usize, allowed: &[u16], ids: &[u16], layouts: usize) -> Ve
             true,
         );
     }
+    // one V9 template flowset (IPFIX: one message with two template sets - the library reads one template record per
+    // IPFIX set, a recorded C05 finding) defining the SAME id twice with different layouts: the last record is the latest
+    // definition, whatever the cache held before (in particular when it already held exactly that last definition)
+    {
+        let a = ids[0];
+        for (l1, l2) in [(0usize, 1usize), (1, 0)] {
+            let n = ["A", "B", "C"];
+            add(format!("Tdup(V9,{},[{},{}])", a, n[l1], n[l2]), v9p(vec![V9Set::Tpl(vec![V9Tpl { id: a, fields: layout(l1) }, V9Tpl { id: a, fields: layout(l2) }], 0)]), None, 9, true);
+            add(format!("Tdup(IPFIX,{},[{},{}])", a, n[l1], n[l2]), ipm(vec![ip_t(a, l1), ip_t(a, l2)]), None, 10, true);
+        }
+    }
     // a template followed, in the same packet, by data for ANOTHER id (which may be unknown: the V9 packet is then an
     // error, yet the template it carried was received)
     if ids.len() >= 2 {
@@ -147,6 +158,17 @@ pub fn alphabet(inst: usize, allowed: &[u16], ids: &[u16], layouts: usize) -> Ve
     add("V9-flowset-truncated-inside-template(B)".into(), full[..full.len() - 3].to_vec(), None, 9, false);
     let full = ipm(vec![ip_t(id0, 1)]);
     add("IPFIX-message-truncated-inside-template(B)".into(), full[..full.len() - 3].to_vec(), None, 10, false);
+    // input that ends inside the SECOND template record of a flowset / set (the first record is complete, the flowset
+    // is not): "input that ends before a template record is complete" leaves the caches untouched
+    {
+        let id1 = if ids.len() >= 2 { ids[1] } else { id0 + 1 };
+        let full = v9p(vec![V9Set::Tpl(vec![V9Tpl { id: id0, fields: layout(2) }, V9Tpl { id: id1, fields: layout(0) }], 0)]);
+        add("V9-flowset-truncated-inside-its-second-template-record".into(), full[..full.len() - 3].to_vec(), None, 9, false);
+        let full = v9p(vec![V9Set::OptTpl(vec![V9OptTpl { id: id0, scope: vec![fs(1, 4)], opts: vec![fs(34, 4), fs(36, 4)] }, V9OptTpl { id: id1, scope: vec![fs(1, 4)], opts: vec![fs(34, 4), fs(36, 4)] }], 0)]);
+        add("V9-flowset-truncated-inside-its-second-options-template-record".into(), full[..full.len() - 3].to_vec(), None, 9, false);
+        let full = ipm(vec![ip_t(id0, 2), ip_t(id1, 0)]);
+        add("IPFIX-message-truncated-inside-its-second-template-set".into(), full[..full.len() - 3].to_vec(), None, 10, false);
+    }
     // a template flowset whose (only) record announces more fields than it holds: complete flowset, incomplete record
     let mut b = v9p(vec![v9_t(id0, 1)]);
     b[26..28].copy_from_slice(&3u16.to_be_bytes());
@@ -170,6 +192,8 @@ pub fn run_config(label: &str, ninst: usize, allowed: Vec<Vec<u16>>, ids: &[u16]
     }
     let mut m = HistModel::new(ninst, allowed, actions, max_depth);
     m.probe = probe;
+    // configurations whose label says so skip the per-transition replay of the whole history
+    m.replay_history = !label.contains("no history replay");
     let (model, res) = search(m, 16);
     eprintln!("[E-HIST] {:<46} actions={:<4} states={:<8} generated={:<9} transitions={:<9} parse_calls={:<10} depth={} probes={} {:.1}s", label, model.actions.len(), res.states, res.generated, res.transitions, res.parse_calls, res.max_depth, res.probes, res.wall_s);
     Run { label: label.to_string(), model, res }
@@ -351,9 +375,9 @@ pub fn configs(tier: &str, probe: impl Fn() -> Option<Box<dyn Fn(&HistModel, &St
     if tier == "thorough" {
         runs.push(run_config("1 instance, ids {256,257,300}, layouts A,B,C", 1, vec![vec![5, 7, 9, 10]], &[256, 257, 300], 3, 40, probe()));
         runs.push(run_config("2 instances (all / {9}), ids {256,257}, layouts A,B", 2, vec![vec![5, 7, 9, 10], vec![9]], &[256, 257], 2, 40, probe()));
-        runs.push(run_config("2 instances (all / all), ids {256,257}, layouts A,B", 2, vec![vec![5, 7, 9, 10], vec![5, 7, 9, 10]], &[256, 257], 2, 40, probe()));
-        runs.push(run_config("2 instances (all / {5,7,10}), ids {256,257,300}, layouts A,B", 2, vec![vec![5, 7, 9, 10], vec![5, 7, 10]], &[256, 257, 300], 2, 48, probe()));
-        runs.push(run_config("1 instance, ids {256,257,300,65535}, layouts A,B", 1, vec![vec![5, 7, 9, 10]], &[256, 257, 300, 65535], 2, 48, probe()));
+        runs.push(run_config("2 instances (all / all), ids {256,257}, layouts A,B, no history replay", 2, vec![vec![5, 7, 9, 10], vec![5, 7, 9, 10]], &[256, 257], 2, 40, probe()));
+        runs.push(run_config("2 instances (all / {5,7,10}), ids {256,257,300}, layouts A,B, no history replay", 2, vec![vec![5, 7, 9, 10], vec![5, 7, 10]], &[256, 257, 300], 2, 48, probe()));
+        runs.push(run_config("1 instance, ids {256,257,300,65535}, layouts A,B, no history replay", 1, vec![vec![5, 7, 9, 10]], &[256, 257, 300, 65535], 2, 48, probe()));
     } else {
         runs.push(run_config("1 instance, ids {256,257}, layouts A,B,C", 1, vec![vec![5, 7, 9, 10]], &[256, 257], 3, 40, probe()));
     }
@@ -457,9 +481,9 @@ pub fn replay(v: &Value) -> i32 {
         ("2 instances (all / {9}), ids {256,257}, layouts A,B", 2, vec![vec![5, 7, 9, 10], vec![9]], vec![256, 257], 2),
         ("1 instance, ids {256,257}, layouts A,B,C", 1, vec![vec![5, 7, 9, 10]], vec![256, 257], 3),
         ("2 instances (all / {9,10}), id {256}, layouts A,B,C", 2, vec![vec![5, 7, 9, 10], vec![9, 10]], vec![256], 3),
-        ("2 instances (all / all), ids {256,257}, layouts A,B", 2, vec![vec![5, 7, 9, 10], vec![5, 7, 9, 10]], vec![256, 257], 2),
-        ("2 instances (all / {5,7,10}), ids {256,257,300}, layouts A,B", 2, vec![vec![5, 7, 9, 10], vec![5, 7, 10]], vec![256, 257, 300], 2),
-        ("1 instance, ids {256,257,300,65535}, layouts A,B", 1, vec![vec![5, 7, 9, 10]], vec![256, 257, 300, 65535], 2),
+        ("2 instances (all / all), ids {256,257}, layouts A,B, no history replay", 2, vec![vec![5, 7, 9, 10], vec![5, 7, 9, 10]], vec![256, 257], 2),
+        ("2 instances (all / {5,7,10}), ids {256,257,300}, layouts A,B, no history replay", 2, vec![vec![5, 7, 9, 10], vec![5, 7, 10]], vec![256, 257, 300], 2),
+        ("1 instance, ids {256,257,300,65535}, layouts A,B, no history replay", 1, vec![vec![5, 7, 9, 10]], vec![256, 257, 300, 65535], 2),
     ];
     let (_, ninst, allowed, ids, layouts) = match cfgs.into_iter().find(|c| c.0 == label) {
         Some(c) => c,
